@@ -217,4 +217,9 @@ class Identifier(Node):
         name = ',$$'.join(''.join(mark(t) for t in p).strip()
                           for p in self.parsed)
         name = name.replace('\0', fills['ws'])
-        return name.replace('$$', fills['nl']).replace('  ', ' ')
+        name = name.replace('$$', fills['nl'])
+        # double blanks are collapsed, but not inside a quoted attribute value
+        return ''.join(
+            part if i % 2 else part.replace('  ', ' ')
+            for i, part in enumerate(
+                re.split(r'("[^"]*"|\'[^\']*\')', name)))
